@@ -124,7 +124,19 @@ func Load(repo, goarch string) (*Prog, error) {
 // The short form with "~/" for the module path is accepted.
 func (p *Prog) Func(name string) *ssa.Function {
 	name = strings.ReplaceAll(name, "~/", modPath+"/")
-	return p.byName[name]
+	if f := p.byName[name]; f != nil {
+		return f
+	}
+	// a method may be declared on T or *T: accept either form of the anchor
+	if strings.HasPrefix(name, "(*") {
+		return p.byName["("+name[2:]]
+	}
+	if strings.HasPrefix(name, "(") {
+		if f := p.byName["(*"+name[1:]]; f != nil && f.Synthetic == "" {
+			return f
+		}
+	}
+	return nil
 }
 
 func (p *Prog) Pos(pos token.Pos) string {
